@@ -72,6 +72,10 @@ def check(ctx):
     sb = B_.evaluate(first['s'], sc, {x: 'h'}, {'h': width})
     eb = B_.evaluate(first['e'], sc, {x: 'h'}, {'h': width})
     fb = B_.evaluate(first['f'], sc, {x: 'h'}, {'h': width})
+    raising = [r_.lineno for r_ in walk_own(f.node) if isinstance(r_, (ast.Raise, ast.Assert))]
+    ctx.inst('R1', f, 'total-on-signed-patterns', not (signed_callers and raising),
+             'the decoder is handed signed shorts (%s): it must decode every 16-bit pattern, also when it arrives as a negative int, and may not reject it (raise at %s)'
+             % (signed_callers[:1], raising))
     ctx.inst('R2', f, 'sign=bit15', B_.is_input_field(sb, 0, 1, 'h', 15) and all(b == 0 for b in sb[1:]), 'sign extracted as %s' % B_.describe(sb, 4))
     ctx.inst('R2', f, 'exponent=bits14..10', B_.is_input_field(eb, 0, 5, 'h', 10) and all(b == 0 for b in eb[5:]), 'exponent extracted as %s' % B_.describe(eb, 8))
     ctx.inst('R2', f, 'fraction=bits9..0', B_.is_input_field(fb, 0, 10, 'h', 0) and all(b == 0 for b in fb[10:]), 'fraction extracted as %s' % B_.describe(fb, 12))
@@ -119,63 +123,7 @@ def check(ctx):
     quaternion_rules(ctx, 'R3')
 
     # ---- R4: trajectory ----------------------------------------------------------------------
-    cb_ = m.cls(TRJ, '_CompressedBase')
-    for fn, want in (('_encode_spatial', 'int({0} * 1000)'), ('_encode_yaw', 'int(math.degrees({0}) * 10)')):
-        fx = cb_.method(fn)
-        rs = [norm(s.value) for s in walk_own(fx.node) if isinstance(s, ast.Return)]
-        ctx.inst('R4', fx, 'unit+no-mask', rs == [want.format(fx.params[1])], '%s returns %s, expected %s (unmasked: struct raises on overflow)' % (fn, rs, want.format(fx.params[1])))
-    for fn, inner in (('_encode_spatial_element', 'self._encode_spatial'), ('_encode_yaw_element', 'self._encode_yaw')):
-        fx = cb_.method(fn)
-        rs = [norm(s.value) for s in walk_own(fx.node) if isinstance(s, ast.Return)]
-        ctx.inst('R4', fx, 'elementwise', rs == ['map(%s, %s)' % (inner, fx.params[1])], '%s maps %s over the element; returns %s' % (fn, inner, rs))
-    cs = m.func(TRJ, 'CompressedStart.pack')
-    pk = [c for c in walk_own(cs.node) if isinstance(c, ast.Call) and dotted(c.func) == 'struct.pack']
-    ctx.inst('R4', cs, 'start-record', len(pk) == 1 and [norm(a) for a in pk[0].args] == ["'<hhhh'", 'self._encode_spatial(self.x)', 'self._encode_spatial(self.y)',
-                                                                                     'self._encode_spatial(self.z)', 'self._encode_yaw(self.yaw)'],
-             'start record is <hhhh of x, y, z (mm) and yaw (0.1 deg)')
-    sg = m.func(TRJ, 'CompressedSegment.pack')
-    st = {norm(s.targets[0]): s.value for s in walk_own(sg.node) if isinstance(s, ast.Assign)}
-    tb = B_.evaluate(st['element_types'], Scope.of(sg), {'self._encode_type(self.x)': 'x', 'self._encode_type(self.y)': 'y', 'self._encode_type(self.z)': 'z',
-                                                        'self._encode_type(self.yaw)': 'w'}, {'x': 2, 'y': 2, 'z': 2, 'w': 2})
-    ctx.inst('R4', sg, 'type-nibbles', B_.is_input_field(tb, 0, 2, 'x') and B_.is_input_field(tb, 2, 2, 'y') and B_.is_input_field(tb, 4, 2, 'z') and B_.is_input_field(tb, 6, 2, 'w'),
-             'element types: x<<0 | y<<2 | z<<4 | yaw<<6; bits %s' % B_.describe(tb, 8))
-    ctx.inst('R4', sg, 'duration-ms', norm(st.get('duration_ms')) in ('int(self.duration * 1000.0)', 'int(self.duration * 1000)'), 'duration in ms as int')
-    seq = [norm(s.value) for s in sg.node.body if isinstance(s, ast.AugAssign) and norm(s.target) == 'data']
-    want = ["struct.pack('<BH', element_types, duration_ms)", 'self._pack_element(self._encode_spatial_element(self.x))', 'self._pack_element(self._encode_spatial_element(self.y))',
-            'self._pack_element(self._encode_spatial_element(self.z))', 'self._pack_element(self._encode_yaw_element(self.yaw))']
-    ctx.inst('R4', sg, 'segment-layout', seq == want, 'segment = <BH header then x, y, z, yaw elements; found %s' % seq)
-    pe = m.func(TRJ, 'CompressedSegment._pack_element')
-    pks = [c for c in walk_own(pe.node) if isinstance(c, ast.Call) and dotted(c.func) == 'struct.pack']
-    lp = [l for l in walk_own(pe.node) if isinstance(l, ast.For)]
-    ctx.inst('R4', pe, 'element-int16', len(pks) == 1 and len(lp) == 1 and [norm(a) for a in pks[0].args] == ["'<h'", norm(lp[0].target)] and norm(lp[0].iter) == pe.params[1],
-             'each part is packed <h in order, unmasked')
-    et = m.func(TRJ, 'CompressedSegment._encode_type')
-    g = cfg_of(et)
-    tbl = {}
-    for n in [n for n in g.nodes if n.kind == 'return' and n.ast.value is not None]:
-        for k in g.fact_keys_at(n):
-            if k[1] and k[0].endswith('== len(%s)' % et.params[1]):
-                tbl[int(k[0].split(' ')[0])] = fold_in(et, n.ast.value)
-            if not k[1] and k[0] == '0 < len(%s)' % et.params[1] and not any(kk[1] and kk[0].endswith('== len(%s)' % et.params[1]) for kk in g.fact_keys_at(n)):
-                tbl[0] = fold_in(et, n.ast.value)        # len(element) == 0 is kept as `not 0 < len(element)`
-    for n in [n for n in g.nodes if n.kind == 'return' and n.ast.value is not None]:
-        v = n.ast.value
-        src = None
-        if isinstance(v, ast.Call) and isinstance(v.func, ast.Attribute) and v.func.attr == 'get' and len(v.args) == 1 and norm(v.args[0]) == 'len(%s)' % et.params[1]:
-            src = v.func.value
-        elif isinstance(v, ast.Subscript) and norm(v.slice) == 'len(%s)' % et.params[1]:
-            src = v.value
-        if src is not None:                     # a length -> code lookup table
-            d = fold_in(et, src)
-            if not isinstance(d, dict) and isinstance(src, ast.Attribute) and et.cls is not None and src.attr in et.cls.consts:
-                d = fold_in(et, et.cls.consts[src.attr])
-            if isinstance(d, dict):
-                tbl.update(d)
-    ctx.inst('R4', et, 'type-table', tbl == {0: 0, 1: 1, 3: 2, 7: 3}, 'element length -> type code table %s, expected {0:0, 1:1, 3:2, 7:3}' % tbl)
-    p4 = m.func(TRJ, 'Poly4D.pack')
-    seq = [norm(s.value) for s in p4.node.body if isinstance(s, ast.AugAssign)]
-    ctx.inst('R4', p4, 'poly4d-layout', seq == ["struct.pack('<ffffffff', *self.x.values)", "struct.pack('<ffffffff', *self.y.values)", "struct.pack('<ffffffff', *self.z.values)",
-                                                "struct.pack('<ffffffff', *self.yaw.values)", "struct.pack('<f', self.duration)"], 'Poly4D = 8 floats for x, y, z, yaw then duration')
+    trajectory_rules(ctx, 'R4')
 
     # ---- R5: RGB565 -----------------------------------------------------------------------------------
     for path, qual, chan in ((LED, 'LEDDriverMemory.write_data', lambda c: 'led.%s' % c), (LEDT, 'LEDTimingsDriverMemory.write_data', lambda c: "timing['rgb']['%s']" % c)):
@@ -220,6 +168,10 @@ def check(ctx):
     ctx.inst('R6', inc, 'range-advance', body == ["anchor_id, distance = struct.unpack('<Bf', raw_data[:5])", 'decoded_data[anchor_id] = distance', 'raw_data = raw_data[5:]'],
              'record -> (anchor id, distance), stored by id, then advance 5 bytes; body %s' % body)
     st = {norm(s.targets[0]): norm(s.value) for s in walk_own(inc.node) if isinstance(s, ast.Assign)}
+    short = [n for n in g.nodes if n.kind == 'return' for k in g.fact_keys_at(n) if k[0].endswith('< len(packet.data)') and not k[1]]
+    ks = sorted({k[0] for n in short for k in g.fact_keys_at(n) if k[0].endswith('< len(packet.data)') and not k[1]})
+    ctx.inst('R6', inc, 'only-empty-packets-dropped', ks == ['0 < len(packet.data)'],
+             'a packet is dropped for its length only when it has no type byte at all: a type byte without payload is legal (e.g. a range report with zero anchors); guards %s' % ks)
     ctx.inst('R6', inc, 'type+payload', st.get('pk_type') == "struct.unpack('<B', packet.data[:1])[0]" and st.get('data') == 'packet.data[1:]', 'type = byte 0, payload from byte 1')
     la = m.func(LOC, 'Localization._decode_lh_angle')
     fmt, res = lh_angle_symbolic(la)
@@ -274,6 +226,70 @@ def lh_angle_symbolic(la):
             if isinstance(out.get(key), list) and isinstance(idx, int) and 0 <= idx < len(out[key]):
                 out[key][idx] = norm(val)
     return fmt, out
+
+
+def trajectory_rules(ctx, rule='R4'):
+    """Compressed / polynomial trajectory images: units (mm, 0.1 deg, ms), unmasked int16 packing (overflow raises), element type codes,
+    segment and start layouts.  Shared with C14 (write-only images have the byte layout the firmware reads)."""
+    m = ctx.model
+    cb_ = m.cls(TRJ, '_CompressedBase')
+    for fn, want in (('_encode_spatial', 'int({0} * 1000)'), ('_encode_yaw', 'int(math.degrees({0}) * 10)')):
+        fx = cb_.method(fn)
+        rs = [norm(s.value) for s in walk_own(fx.node) if isinstance(s, ast.Return)]
+        ctx.inst(rule, fx, 'unit+no-mask', rs == [want.format(fx.params[1])], '%s returns %s, expected %s (unmasked: struct raises on overflow)' % (fn, rs, want.format(fx.params[1])))
+    for fn, inner in (('_encode_spatial_element', 'self._encode_spatial'), ('_encode_yaw_element', 'self._encode_yaw')):
+        fx = cb_.method(fn)
+        rs = [norm(s.value) for s in walk_own(fx.node) if isinstance(s, ast.Return)]
+        ctx.inst(rule, fx, 'elementwise', rs == ['map(%s, %s)' % (inner, fx.params[1])], '%s maps %s over the element; returns %s' % (fn, inner, rs))
+    cs = m.func(TRJ, 'CompressedStart.pack')
+    pk = [c for c in walk_own(cs.node) if isinstance(c, ast.Call) and dotted(c.func) == 'struct.pack']
+    ctx.inst(rule, cs, 'start-record', len(pk) == 1 and [norm(a) for a in pk[0].args] == ["'<hhhh'", 'self._encode_spatial(self.x)', 'self._encode_spatial(self.y)',
+                                                                                     'self._encode_spatial(self.z)', 'self._encode_yaw(self.yaw)'],
+             'start record is <hhhh of x, y, z (mm) and yaw (0.1 deg)')
+    sg = m.func(TRJ, 'CompressedSegment.pack')
+    st = {norm(s.targets[0]): s.value for s in walk_own(sg.node) if isinstance(s, ast.Assign)}
+    tb = B_.evaluate(st['element_types'], Scope.of(sg), {'self._encode_type(self.x)': 'x', 'self._encode_type(self.y)': 'y', 'self._encode_type(self.z)': 'z',
+                                                        'self._encode_type(self.yaw)': 'w'}, {'x': 2, 'y': 2, 'z': 2, 'w': 2})
+    ctx.inst(rule, sg, 'type-nibbles', B_.is_input_field(tb, 0, 2, 'x') and B_.is_input_field(tb, 2, 2, 'y') and B_.is_input_field(tb, 4, 2, 'z') and B_.is_input_field(tb, 6, 2, 'w'),
+             'element types: x<<0 | y<<2 | z<<4 | yaw<<6; bits %s' % B_.describe(tb, 8))
+    ctx.inst(rule, sg, 'duration-ms', norm(st.get('duration_ms')) in ('int(self.duration * 1000.0)', 'int(self.duration * 1000)'), 'duration in ms as int')
+    seq = [norm(s.value) for s in sg.node.body if isinstance(s, ast.AugAssign) and norm(s.target) == 'data']
+    want = ["struct.pack('<BH', element_types, duration_ms)", 'self._pack_element(self._encode_spatial_element(self.x))', 'self._pack_element(self._encode_spatial_element(self.y))',
+            'self._pack_element(self._encode_spatial_element(self.z))', 'self._pack_element(self._encode_yaw_element(self.yaw))']
+    ctx.inst(rule, sg, 'segment-layout', seq == want, 'segment = <BH header then x, y, z, yaw elements; found %s' % seq)
+    pe = m.func(TRJ, 'CompressedSegment._pack_element')
+    pks = [c for c in walk_own(pe.node) if isinstance(c, ast.Call) and dotted(c.func) == 'struct.pack']
+    lp = [l for l in walk_own(pe.node) if isinstance(l, ast.For)]
+    ctx.inst(rule, pe, 'element-int16', len(pks) == 1 and len(lp) == 1 and [norm(a) for a in pks[0].args] == ["'<h'", norm(lp[0].target)] and norm(lp[0].iter) == pe.params[1],
+             'each part is packed <h in order, unmasked')
+    et = m.func(TRJ, 'CompressedSegment._encode_type')
+    g = cfg_of(et)
+    tbl = {}
+    for n in [n for n in g.nodes if n.kind == 'return' and n.ast.value is not None]:
+        for k in g.fact_keys_at(n):
+            if k[1] and k[0].endswith('== len(%s)' % et.params[1]):
+                tbl[int(k[0].split(' ')[0])] = fold_in(et, n.ast.value)
+            if not k[1] and k[0] == '0 < len(%s)' % et.params[1] and not any(kk[1] and kk[0].endswith('== len(%s)' % et.params[1]) for kk in g.fact_keys_at(n)):
+                tbl[0] = fold_in(et, n.ast.value)        # len(element) == 0 is kept as `not 0 < len(element)`
+    for n in [n for n in g.nodes if n.kind == 'return' and n.ast.value is not None]:
+        v = n.ast.value
+        src = None
+        if isinstance(v, ast.Call) and isinstance(v.func, ast.Attribute) and v.func.attr == 'get' and len(v.args) == 1 and norm(v.args[0]) == 'len(%s)' % et.params[1]:
+            src = v.func.value
+        elif isinstance(v, ast.Subscript) and norm(v.slice) == 'len(%s)' % et.params[1]:
+            src = v.value
+        if src is not None:                     # a length -> code lookup table
+            d = fold_in(et, src)
+            if not isinstance(d, dict) and isinstance(src, ast.Attribute) and et.cls is not None and src.attr in et.cls.consts:
+                d = fold_in(et, et.cls.consts[src.attr])
+            if isinstance(d, dict):
+                tbl.update(d)
+    ctx.inst(rule, et, 'type-table', tbl == {0: 0, 1: 1, 3: 2, 7: 3}, 'element length -> type code table %s, expected {0:0, 1:1, 3:2, 7:3}' % tbl)
+    p4 = m.func(TRJ, 'Poly4D.pack')
+    seq = [norm(s.value) for s in p4.node.body if isinstance(s, ast.AugAssign)]
+    ctx.inst(rule, p4, 'poly4d-layout', seq == ["struct.pack('<ffffffff', *self.x.values)", "struct.pack('<ffffffff', *self.y.values)", "struct.pack('<ffffffff', *self.z.values)",
+                                                "struct.pack('<ffffffff', *self.yaw.values)", "struct.pack('<f', self.duration)"], 'Poly4D = 8 floats for x, y, z, yaw then duration')
+
 
 
 def led_timing_rules(ctx, rule='R5'):
@@ -402,6 +418,9 @@ def quaternion_rules(ctx, rule='R3'):
     rq = [s for s in walk_own(rl[0]) if isinstance(s, ast.Assign) and norm(s.targets[0]) == 'q[%s]' % norm(rl[0].target)]
     ctx.inst(rule, dq, 'reader-scale', any(norm(s.value) in ('mag / mask / np.sqrt(2)', 'mag / mask / math.sqrt(2)') for s in rq), 'component = magnitude / 511 / sqrt2')
     ns = [s for s in walk_own(wl[0]) if isinstance(s, ast.Assign) and norm(s.targets[0]) == 'negbit']
+    ng = [s_ for s_ in cq.node.body if isinstance(s_, ast.Assign) and norm(s_.targets[0]) == 'negate']
+    ctx.inst(rule, cq, 'negate=sign-of-largest', len(ng) == 1 and canon_test(ng[0].value) == canon_test(ast.parse('quat_n[i_largest] < 0', mode='eval').body),
+             'the whole quaternion is negated exactly when the dropped (largest) component is negative - the decoder rebuilds it as a positive root; found %s' % [norm(s_.value) for s_ in ng])
     ctx.inst(rule, cq, 'sign-relative-to-largest', len(ns) == 1 and norm(ns[0].value) in ('int((quat_n[%s] < 0) ^ negate)' % norm(wl[0].target), 'int((0 > quat_n[%s]) ^ negate)' % norm(wl[0].target)), 'sign bit is relative to the sign of the largest component')
 
 
